@@ -97,12 +97,28 @@ def attr_value(t, arity, i, j, vseed):
     return v
 
 
+def edges_agree(got, need, opt=None):
+    """same edges as a multiset; `opt` lists edges that may be present once more or not (un-marked hard edges)"""
+    g = sorted(tuple(sorted(int(x) for x in e)) for e in got)
+    n = sorted(tuple(sorted(e)) for e in need)
+    if not opt:
+        return g == n
+    from collections import Counter
+    rest = Counter(g)
+    rest.subtract(Counter(n))
+    if any(v < 0 for v in rest.values()):
+        return False
+    extra = +rest
+    allowed = Counter(tuple(sorted(e)) for e in opt)
+    return all(extra[k] <= allowed.get(k, 0) for k in extra)
+
+
 class C04(Sim):
     PROP = "C04"
     RULE = ("one run = a pool of 1-3 meshes and one simulated file system; saver / loader / cross-reader / cross-writer / querier / config clients under a "
             "seeded scheduler; distinct = distinct (mesh kinds, (operation, format, switches) sequence); non-trivial = >= 1 file saved or planted and >= 1 load or cross-read judged")
     FAULT_KINDS = ["lexical", "config_flip", "reject"]
-    PROBES = ["wild_coordinates", "polygon_to_triangle_format", "attributes_roundtrip", "query_before_save", "resave_after_load", "stl", "hex", "export_edges_off",
+    PROBES = ["dialect_face_style", "dialect_vextra", "dialect_ref", "dialect_version", "dialect_nedges", "dialect_normals", "dialect_header", "edge_unmarked", "edited_then_saved", "wild_coordinates", "polygon_to_triangle_format", "attributes_roundtrip", "query_before_save", "resave_after_load", "stl", "hex", "export_edges_off",
               "crlf", "comments", "exp_floats", "no_final_newline", "cross_read", "cross_write_load", "save_load", "overwrite", "faceless_stl", "ignore_elements", "raw_load"]
     QUICK_RUNS = 2500
     THOROUGH_RUNS = 250000
@@ -128,7 +144,7 @@ class C04(Sim):
         meshes = [gen_mesh_spec(wr, kinds) for _ in range(rng.randint(1, 3))]
         return {"world": {"meshes": meshes}, "max_steps": rng.randint(3, 14), "burst": rng.choice([0.2, 0.5]),
                 "formats": rng.subset(FORMATS, 0.6, at_least=1), "perturb": rng.subset(list(RC.PERTURBATIONS), 0.5),
-                "flip_rate": rng.choice([0.0, 0.1, 0.3]), "clients": ["saver", "loader", "xreader", "xwriter"] + (["querier"] if rng.chance(0.6) else [])}
+                "flip_rate": rng.choice([0.0, 0.1, 0.3]), "clients": ["saver", "loader", "xreader", "xwriter"] + (["querier"] if rng.chance(0.6) else []) + (["reeditor"] if rng.chance(0.4) else [])}
 
     def start(self, cfg):
         import mouette as M
@@ -170,6 +186,7 @@ class C04(Sim):
         self.njudged = 0
         self.seq = []
         self.loaded = []    # meshes obtained by loading (may be saved again)
+        self.loaded_fmt = []
         self._pending_flip = False
 
     def close(self):
@@ -184,6 +201,10 @@ class C04(Sim):
         if hasattr(mesh, "edges") and mesh.edges.has_attribute("hard_edges"):
             h = mesh.edges.get_attribute("hard_edges")
             snap["hard"] = [i for i in range(len(mesh.edges)) if bool(h[i])]
+            try:
+                snap["unmarked"] = sorted(int(i) for i in h if not bool(h[i]))  # entries stored with the value False (un-marked by the caller)
+            except TypeError:
+                snap["unmarked"] = []
         for sname in SETS:
             cont = getattr(mesh, sname, None)
             if cont is None:
@@ -234,7 +255,7 @@ class C04(Sim):
     def propose(self, rng):
         cfg = self.cfg
         names = list(cfg["clients"]) + (["config"] if (cfg["faults_on"] and cfg["flip_rate"] > 0) else []) + (["rejector"] if cfg["faults_on"] else [])
-        weights = [2, 2, 1.5, 2] + ([1] if "querier" in cfg["clients"] else []) + ([cfg["flip_rate"] * 4] if "config" in names else []) + ([0.6] if cfg["faults_on"] else [])
+        weights = [2, 2, 1.5, 2] + ([1] if "querier" in cfg["clients"] else []) + ([1.5] if "reeditor" in cfg["clients"] else []) + ([cfg["flip_rate"] * 4] if "config" in names else []) + ([0.6] if cfg["faults_on"] else [])
         c = self.pick_client(rng, names, weights, cfg["burst"])
         r = self.client_rng(c)
         if c == "rejector":
@@ -243,15 +264,65 @@ class C04(Sim):
         if c == "config":
             k = r.choice(["export_edges_in_obj", "export_edges_in_obj", "complete_edges_from_faces"])
             return {"c": c, "op": "flip", "key": k, "value": not self.sw[k]}
+        if c == "reeditor":
+            # a client with a program: save a surface, load the file and keep the result, edit the loaded surface in an editing block, save
+            # it again in the same format, load / cross-read that file.  Every stage is an ordinary event; a refused stage restarts the program.
+            st = getattr(self, "_re", None)
+            surf = [i for i in range(len(self.meshes)) if type(self.meshes[i]).__name__ == "SurfaceMesh"]
+            if st is None or st["stage"] > 4 or not surf:
+                fm = r.choice([f for f in cfg["formats"] if f in ("geogram_ascii", "obj", "mesh", "off")] or cfg["formats"])
+                st = self._re = {"stage": 0, "fmt": fm, "p1": "r%d.%s" % (self.nfile, fm), "src": r.choice(surf) if surf else 0}
+            st["stage"] += 1
+            g = st["stage"]
+            if g == 1:
+                return {"c": c, "op": "save", "m": st["src"], "fmt": st["fmt"], "path": st["p1"]}
+            if g == 2:
+                st["n_loaded"] = len(self.loaded)
+                return {"c": c, "op": "load", "path": st["p1"], "keep": True, "raw": False}
+            if st.get("n_loaded") is None or len(self.loaded) <= st["n_loaded"]:
+                self._re = None  # the load was refused, or its result not kept: start over next time
+                return {"c": c, "op": "query", "m": r.below(self._targets()), "which": "degree"}
+            tgt = len(self.meshes) + st["n_loaded"]
+            if g == 3:
+                return {"c": c, "op": "edit", "m": tgt, "how": r.choice(["triangulate", "fan"]), "i": r.below(1 << 16)}
+            if g == 4:
+                st["p2"] = "r%d.%s" % (self.nfile, st["fmt"])
+                return {"c": c, "op": "save", "m": tgt, "fmt": st["fmt"], "path": st["p2"]}
+            return {"c": c, "op": r.choice(["load", "xread"]), "path": st.get("p2", st["p1"]), "keep": False, "raw": r.chance(0.3)}
         if c == "querier":
             return {"c": c, "op": "query", "m": r.below(self._targets()), "which": r.choice(["border", "adjacency", "degree"])}
         fmt = r.choice(cfg["formats"])
+        jl = getattr(self, "_just_loaded", None)
+        if c == "saver" and jl is not None and jl < self._targets() and r.chance(0.6):
+            # a surface that was just loaded from a file is edited, then (next) saved again
+            self._just_loaded = None
+            self._just_edited = jl
+            return {"c": c, "op": "edit", "m": jl, "how": r.choice(["triangulate", "fan"]), "i": r.below(1 << 16)}
+        if c == "saver" and r.chance(0.12):
+            # the caller changes a mesh between saves: edits the faces of a surface in an editing block (also of a surface that was loaded
+            # from a file), or un-marks a declared (hard) edge.  What is saved afterwards is the mesh as it stands then.
+            if r.chance(0.6):
+                tgt = r.below(self._targets())
+                if self.loaded and r.chance(0.7):
+                    tgt = len(self.meshes) + r.below(len(self.loaded))  # preferably a mesh that came out of a file
+                self._just_edited = tgt
+                return {"c": c, "op": "edit", "m": tgt, "how": r.choice(["triangulate", "fan"]), "i": r.below(1 << 16)}
+            return {"c": c, "op": "unmark", "m": r.below(self._targets()), "i": r.below(1 << 16)}
         if c == "saver" or (c in ("loader", "xreader") and not self.files):
             path = "f%d.%s" % (self.nfile, fmt)
             old = sorted(p for p, f in self.files.items() if f["fmt"] == fmt and f["origin"] == "save")
             if old and r.chance(0.25):
                 path = r.choice(old)  # overwrite a file written earlier: what was at the path before must not show through
             ev = {"c": "saver", "op": "save", "m": r.below(self._targets()), "fmt": fmt, "path": path}
+            je = getattr(self, "_just_edited", None)
+            if je is not None and je < self._targets() and r.chance(0.7):
+                # the mesh edited last is saved next, preferably in the format it was loaded from
+                self._just_edited = None
+                ev["m"] = je
+                lf = self.loaded_fmt[je - len(self.meshes)] if je >= len(self.meshes) else None
+                if lf in cfg["formats"] and r.chance(0.7) and path.endswith("." + fmt):
+                    ev["fmt"] = lf
+                    ev["path"] = "f%d.%s" % (self.nfile, lf)
             if r.chance(0.12):
                 ev["ignore"] = r.subset(["edges", "faces", "cells"], 0.5, at_least=1)
             return ev
@@ -267,12 +338,40 @@ class C04(Sim):
         opts = {p: True for p in legal if r.chance(0.6)}
         if fmt == "stl" and opts:
             opts = {}  # binary STL has no lexical layer
-        return {"c": c, "op": "plant", "m": r.below(self._targets()), "fmt": fmt, "path": "x%d.%s" % (self.nfile, fmt), "opts": opts, "pseed": r.below(1 << 20)}
+        # dialect variants an independent writer may choose without changing the meaning of the file (both in faulted and fault-free runs)
+        dia = {}
+        if fmt == "obj":
+            if r.chance(0.4):
+                dia["face_style"] = r.choice(["v/vt", "v//vn", "v/vt/vn"])
+            if r.chance(0.3):
+                dia["vextra"] = r.choice(["rgb", "w"])  # `v x y z r g b` (vertex colours) / `v x y z w`
+        elif fmt == "mesh":
+            if r.chance(0.4):
+                dia["ref"] = r.randint(1, 9)
+            if r.chance(0.2):
+                dia["version"] = 1
+        elif fmt == "off" and r.chance(0.3):
+            dia["nedges"] = r.randint(1, 40)
+        elif fmt == "stl":
+            if r.chance(0.3):
+                dia["normals"] = "zero"
+            if r.chance(0.3):
+                dia["header"] = r.choice(["exported", "COLOR=", "binary"])
+        return {"c": c, "op": "plant", "m": r.below(self._targets()), "fmt": fmt, "path": "x%d.%s" % (self.nfile, fmt), "opts": opts, "dialect": dia, "pseed": r.below(1 << 20)}
 
     def applicable(self, ev):
         op = ev["op"]
         if op in ("save_unknown_ext", "load_missing", "load_unknown_ext"):
             return ev["m"] < self._targets()
+        if op in ("edit", "unmark"):
+            if ev["m"] >= self._targets():
+                return False
+            m = self._mesh(ev["m"])
+            if type(m).__name__ != "SurfaceMesh" or not len(m.faces):
+                return False
+            if op == "unmark":
+                return bool(self.sw["complete_edges_from_faces"] and self.snapshot(m)["hard"])
+            return True
         if op in ("save", "plant", "query"):
             if ev["m"] >= self._targets():
                 return False
@@ -337,7 +436,8 @@ class C04(Sim):
             self.violation("same-elements-same-vertex-order", op, "wrong_value", "cells", ac + "/" + kind,
                            "%s: cells %r, the file expresses %r" % (path, got["cells"][:6], ex["cells"][:6]))
         # edges: those the file expresses + exactly those completion derives
-        if sorted(map(tuple, got["edges"])) != sorted(nf.edge_keys):
+        opt_ = [e for e in (ex.get("edges_opt") or []) if tuple(sorted(e)) not in set(nf.edge_keys)]
+        if not edges_agree(got["edges"], nf.edge_keys, opt_):
             V("same-elements-same-vertex-order", "edges", "edges %r, expected (as a set) %r" % (sorted(map(tuple, got["edges"]))[:12], sorted(nf.edge_keys)[:12]))
         if nf.dim == 1 and [tuple(e) for e in got["edges"]] != [tuple(sorted(e)) for e in ex["edges"]]:
             V("same-elements-same-vertex-order", "edges", "polyline edges %r, the file expresses %r" % (got["edges"][:8], ex["edges"][:8]))
@@ -408,6 +508,25 @@ class C04(Sim):
             else:
                 return "n/a"
             return o.brief()  # state perturber only (adds attributes to the mesh); never judged here
+        if op == "edit":
+            m = self._mesh(ev["m"])
+
+            def edit():
+                with M.mesh.SurfaceSubdivision(m) as ed:
+                    if ev["how"] == "triangulate":
+                        ed.triangulate()
+                    else:
+                        ed.split_face_as_fan(ev["i"] % len(m.faces))
+            o = call(edit)
+            self.probes["edited_then_saved"] += 1
+            return o.brief() if not o.ok else "edited"  # (what an editing block does is another property's business: the mesh is saved as it stands)
+        if op == "unmark":
+            m = self._mesh(ev["m"])
+            hard = self.snapshot(m)["hard"]
+            e = hard[ev["i"] % len(hard)]
+            m.edges.get_attribute("hard_edges")[e] = False  # the entry stays stored, with the value False
+            self.probes["edge_unmarked"] += 1
+            return "unmarked %d" % e
         if op == "save":
             m = self._mesh(ev["m"])
             fmt = ev["fmt"]
@@ -452,6 +571,9 @@ class C04(Sim):
                     ex = dict(ex, edges=hard if hard is not None else [])
             elif fmt == "mesh" and hard is not None:
                 ex = dict(ex, edges=hard)
+            if hard is not None and snap.get("unmarked") and ex["edges"] is hard:
+                # an un-marked edge is a side of a face: listing it or not means the same mesh (the flag is not part of the formats)
+                ex = dict(ex, edges_opt=[snap["edges"][i] for i in snap["unmarked"]])
             self.files[ev["path"]] = {"fmt": fmt, "snap": snap, "expressed": ex, "origin": "save", "kinds": kinds}
             self.seq.append("save:" + fmt)
             if fmt == "stl":
@@ -470,7 +592,14 @@ class C04(Sim):
             snap = self.snapshot(m)
             mesh = {"vertices": snap["vertices"], "edges": snap["edges"], "faces": snap["faces"], "cells": snap["cells"], "attributes": snap["attributes"]}
             ex = RC.project(fmt, mesh)
-            data = RC.write(fmt, ex, seed=ev["pseed"], **ev["opts"])
+            dia = dict(ev.get("dialect") or {})
+            vextra = dia.pop("vextra", None)
+            data = RC.write(fmt, ex, seed=ev["pseed"], **ev["opts"], **dia)
+            if vextra:
+                import re
+                data = re.sub(rb"(?m)^(v[ \t]+\S+[ \t]+\S+[ \t]+\S+)", rb"\1 0.5 0.25 1" if vextra == "rgb" else rb"\1 1.0", data)
+            for k_ in (ev.get("dialect") or {}):
+                self.probes["dialect_" + k_] += 1
             self.fs.files[self.fs.root + ev["path"]] = data
             self.nfile += 1
             self.files[ev["path"]] = {"fmt": fmt, "snap": snap, "expressed": RC.core(RC.read(fmt, data)) if fmt != "stl" else ex, "origin": "plant", "kinds": self._kinds(snap)}
@@ -506,8 +635,8 @@ class C04(Sim):
                 V("faces", "an independent reader sees faces %r, the mesh has (within the format's vocabulary) %r" % (got["faces"][:8], ex["faces"][:8]))
             if got["cells"] != ex["cells"]:
                 V("cells", "an independent reader sees cells %r, the mesh has %r" % (got["cells"][:6], ex["cells"][:6]))
-            if sorted(tuple(sorted(e)) for e in got["edges"]) != sorted(tuple(sorted(e)) for e in ex["edges"]):
-                V("edges", "an independent reader sees edges %r, expected %r" % (got["edges"][:10], ex["edges"][:10]))
+            if not edges_agree(got["edges"], ex["edges"], ex.get("edges_opt")):
+                V("edges", "an independent reader sees edges %r, expected %r (optional: %r)" % (got["edges"][:10], ex["edges"][:10], ex.get("edges_opt")))
             if fmt == "geogram_ascii":
                 self._judge_attributes("xread", ev["path"], "geogram_ascii/xread", got["attributes"], ex["attributes"], info["kinds"])
             return "ok"
@@ -532,7 +661,7 @@ class C04(Sim):
                 if not same_coords(gotV, ex["vertices"]):
                     self.violation("same-coordinates-bit-exact", "load", "wrong_value", "vertices", ac, "%s: raw vertices differ from what the file expresses" % ev["path"])
                 for kk in ("edges", "faces", "cells"):
-                    if got[kk] != want[kk]:
+                    if (got[kk] != want[kk]) if kk != "edges" else (not edges_agree(got[kk], want[kk], ex.get("edges_opt"))):
                         self.violation("inexpressible-kinds-absent" if len(got[kk]) > len(want[kk]) else "same-elements-same-vertex-order", "load", "wrong_value", kk, ac,
                                        "%s: raw %s %r, the file expresses %r" % (ev["path"], kk, got[kk][:8], want[kk][:8]))
                 return "ok"
@@ -544,6 +673,8 @@ class C04(Sim):
             self._judge_loaded("load", fmt, ev["path"], o.value, info)
             if ev.get("keep") and len(self.loaded) < 3 and o.value is not None:
                 self.loaded.append(o.value)
+                self.loaded_fmt.append(fmt)
+                self._just_loaded = len(self.meshes) + len(self.loaded) - 1
             return "ok"
         raise ValueError(op)
 
